@@ -21,6 +21,25 @@ def _last_leaf(node):
     return last
 
 
+def _find(root, path):
+    if root.path == path:
+        return root
+    for v in root.fields.values():
+        for x in (v if isinstance(v, list) else [v]):
+            if isinstance(x, SymNode):
+                r = _find(x, path)
+                if r is not None:
+                    return r
+    return None
+
+
+def _leftmost(node):
+    """The textually first leaf below node: it starts at the same position as node itself."""
+    from . import pyref
+    kids = [c for _, _, c in pyref.children(node) if c.sort != 'expr_context' and c.cls not in ('Load', 'Store')]
+    return _leftmost(kids[0]) if kids else node
+
+
 def expr_end_semantics(repo):
     """-> list of (shape name, verdict, detail); verdict in ok / mixes / wrong / unknown"""
     def build():
@@ -28,10 +47,23 @@ def expr_end_semantics(repo):
         if 'get_expr_end_visitor' not in facts.classes:
             raise AnalysisError('util.get_expr_end_visitor vanished')
         out = []
+        shapes = []
         for cls in ('Tuple', 'BinOp', 'Call', 'Dict', 'IfExp', 'Compare'):
+            shapes.append((cls, ShapeBuilder({}, 'max').node(cls, 'node')))
+        # a literal as the last node (visit_Constant is a method of its own)
+        t = ShapeBuilder({}, 'max').node('Tuple', 'node')
+        t.fields['elts'][-1] = SymNode('Constant', 'node.elts[1]', 'expr', {'value': 'text', 'kind': None})
+        shapes.append(('Tuple ending in a literal', t))
+        # attribute of a call whose arguments lie further right: f(x).attr
+        a = ShapeBuilder({}, 'max').node('Attribute', 'node')
+        a.fields['value'] = ShapeBuilder({}, 'max').node('Call', 'node.value')
+        shapes.append(('Attribute of a Call', a))
+        n = ShapeBuilder({}, 'max').node('Attribute', 'node')
+        n.fields['value'] = SymNode('Name', 'node.value', 'expr', {'id': 'x', 'ctx': SymNode('Load', 'node.value.ctx', 'expr_context')})
+        shapes.append(('Attribute of a Name', n))
+        for cls, root in shapes:
             it = Interp(repo, facts)
             it.nodevisitor_model = True
-            root = ShapeBuilder({}, 'max').node(cls, 'node')
             want = _last_leaf(root)
 
             def run(it=it, root=root):
@@ -57,7 +89,8 @@ def expr_end_semantics(repo):
                 if not ok:
                     verdict, detail = 'wrong', 'the result %r is not (node.lineno, node.col_offset + 1) of one node' % (result,)
                     break
-                if result[0].path != want.path:
+                anchor = _find(root, result[0].path)
+                if result[0].path != want.path and not (anchor is not None and _leftmost(anchor).path == want.path):
                     verdict, detail = 'wrong', 'the result is anchored at %s, the last visited node is %s' % (result[0].path, want.path)
                     break
             out.append((cls, verdict, detail))
